@@ -28,7 +28,7 @@ def budget(tier):
 
 def floor(tier):
     return dict(min_conclusive=40 if tier == "quick" else 800, min_nontrivial=20 if tier == "quick" else 100,
-                classes=["contract", "linear", "theory", "missing-flavour", "q2dep", "eko-reference", "twin-first"], probes=["alphas_calls", "pdf_calls", "apply_pdf_probe"], min_compared=300)  # fmt: skip
+                classes=["contract", "linear", "theory", "missing-flavour", "q2dep", "eko-reference", "twin-first", "unsorted-card-grid"], probes=["alphas_calls", "pdf_calls", "apply_pdf_probe"], min_compared=300)  # fmt: skip
 
 
 def cases(tier, rng):
@@ -56,6 +56,11 @@ def cases(tier, rng):
         c = dict(id=f"c17-{i}", twin_first=bool(i % 6 == 0), mode=mode, names=names, points=pts, xi=xi, pdf1=pdf1, pdf2=pdf2, ab=[float(rng.normal()), float(rng.normal())],
                  fake_orders=[[int(rng.integers(0, 4)), int(rng.integers(0, 3)), int(rng.integers(0, 4)), int(rng.integers(0, 4))] for _ in range(3)],
                  fake_seed=int(rng.integers(1 << 30)), as_par=[float(rng.uniform(0.1, 0.4)), float(rng.uniform(0.05, 0.3))], grid=g, **cfg)  # fmt: skip
+        if i % 7 == 3:
+            # the card lists the interpolation nodes in another order (descending / shuffled): the library sorts them, and everything
+            # downstream must refer to the sorted nodes
+            c["grid"] = dict(g, xgrid=[float(v) for v in (g["xgrid"][::-1] if i % 2 else rng.permutation(g["xgrid"]))])
+            c["unsorted"] = True
         if mode == "theory":
             c["theory"].update(alphas=float(rng.uniform(0.10, 0.13)), Qref=float(cards.pick(rng, [91.2, 50.0, 10.0, 3.0])), XIR=cards.logu(rng, 0.5, 2.0), XIF=cards.logu(rng, 0.5, 2.0),
                                alphaqed=float(rng.uniform(0.007, 0.008)), ModEv="EXA")  # fmt: skip
@@ -109,9 +114,16 @@ def run_case(case):
         obsd[n] = [dict(x=p["x"], Q2=p["Q2"], **({"y": p["y"]} if isxs else {})) for p in case["points"]]
     ob = cards.observables(obsd, xgrid=g["xgrid"], deg=g["deg"], is_log=g["is_log"], **case["obs"])
     out = run.run(th, ob)
-    xgrid = list(out["xgrid"]["grid"])
+    # the nodes the operator columns refer to: the sorted grid (physics), not whatever the output claims
+    xgrid = sorted(float(v) for v in g["xgrid"])
     mode = case["mode"]
+    if case.get("unsorted"):
+        pass
+    if [float(v) for v in out["xgrid"]["grid"]] != xgrid:
+        return dict(violations=[dict(sig="output-grid-not-sorted", what=f"the output's xgrid {[round(float(v),6) for v in out['xgrid']['grid']][:4]}... is not the sorted grid the operator columns refer to (card order {'unsorted' if case.get('unsorted') else 'sorted'})")], compared=1, classes=[case["mode"]])
     viol, nontrivial, classes = [], set(), {mode}
+    if case.get("unsorted"):
+        classes.add("unsorted-card-grid")
     compared, margin, sample = 0, 0.0, None
     probes = dict(alphas_calls=0, pdf_calls=0, apply_pdf_probe=0)
     xiR, xiF = case["xi"]["xiR"], case["xi"]["xiF"]
